@@ -10,6 +10,8 @@ import (
 	"bytes"
 	"encoding/json"
 	"fmt"
+	"os"
+	"path/filepath"
 	"sort"
 	"strings"
 	"testing"
@@ -80,7 +82,9 @@ func genDyn(t *rapid.T, fam string) string {
 		}
 		return rapid.IntRange(1, 64).Draw(t, "s")
 	}
-	ident := func() string { return rapid.SampledFrom([]string{"stk", "s", "my_stack", "A", "callstack"}).Draw(t, "ident") }
+	ident := func() string {
+		return rapid.SampledFrom([]string{"stk", "s", "my_stack", "A", "callstack"}).Draw(t, "ident")
+	}
 	var n string
 	switch fam {
 	case "rsets":
@@ -124,7 +128,9 @@ func genDynOps(t *rapid.T, p int, hdl bool) []string {
 	return r
 }
 
-func regName(t *rapid.T, R int) string { return fmt.Sprintf("r%d", rapid.IntRange(0, (1<<uint(R))-1).Draw(t, "reg")) }
+func regName(t *rapid.T, R int) string {
+	return fmt.Sprintf("r%d", rapid.IntRange(0, (1<<uint(R))-1).Draw(t, "reg"))
+}
 
 // genLine draws an assembly line for one of the enabled opcodes when it has a simple operand form.
 func genLine(t *rapid.T, d Dom) Line {
@@ -173,7 +179,7 @@ func genDom(t *rapid.T, kinds []string, hdl bool) Dom {
 	d.L = rapid.IntRange(0, 4).Draw(t, "L")
 	d.O = rapid.IntRange(1, 5).Draw(t, "O")
 	static := StaticNames()
-	if rapid.IntRange(0, 19).Draw(t, "allops") == 0 {
+	if rapid.IntRange(0, 19).Draw(t, "allops") == 19 { // high end: shrinking leads to small opcode sets
 		d.Ops = append(d.Ops, static...)
 	} else {
 		for i, n := 0, rapid.IntRange(1, 8).Draw(t, "nops"); i < n; i++ {
@@ -373,6 +379,9 @@ func genCase(kind string, hdlOneIn int) func(t *rapid.T) Case {
 		}
 		c.HDL = hdl
 		c.Fresh = rapid.Bool().Draw(t, "fresh")
+		if rapid.IntRange(1, 6).Draw(t, "nolq") == 6 {
+			c.NoLQ, c.Fresh = true, true
+		}
 		c.Perturb = rapid.IntRange(0, 1<<20).Draw(t, "perturb")
 		return c
 	}
@@ -403,6 +412,16 @@ func load(raw []byte, single bool) (*Built, error) {
 	bm := (&bj).Dejsoner() // cmd/bondmachine/bondmachine.go:314-316
 	bm.Init()              // :329
 	return &Built{BM: bm}, nil
+}
+
+// safeLoad turns a panic of the loader into an error.
+func safeLoad(raw []byte, single bool) (b *Built, err error) {
+	defer func() {
+		if r := recover(); r != nil {
+			err = fmt.Errorf("panic: %v", r)
+		}
+	}()
+	return load(raw, single)
 }
 
 func (b *Built) live() any {
@@ -547,8 +566,8 @@ func panicClass(err error) string {
 		sb.WriteRune(r)
 	}
 	s = sb.String()
-	if len(s) > 70 {
-		s = s[:70]
+	if len(s) > 120 {
+		s = s[:120]
 	}
 	return s
 }
@@ -586,9 +605,31 @@ func runSim(bm *bondmachine.Bondmachine, env gen.Env, ticks int) ([]string, erro
 // ---------------------------------------------------------------------------
 // property
 
-func prop(c Case) pbt.Outcome {
+func prop(c Case) pbt.Outcome      { return propJ(c, false) }
+func propKnown(c Case) pbt.Outcome { return propJ(c, true) }
+
+// hasLQ: the machine uses an opcode of the linear quantizer family.
+func hasLQ(b *Built) bool {
+	for _, m := range b.machines() {
+		for _, op := range m.Op {
+			if op != nil && dynFamily(op.Op_get_name()) == "dyn_linear_quantizer" {
+				return true
+			}
+		}
+	}
+	return false
+}
+
+// propJ is the property; judgeKnown makes it judge the cases of the recorded finding
+// D-C11-1 (lost-opcode:create-error-discarded) instead of counting them as excluded.
+func propJ(c Case, judgeKnown bool) pbt.Outcome {
 	resetRegistry()
+	configureLQ(true)
 	defer resetRegistry()
+	defer configureLQ(true)
+	if c.NoLQ {
+		c.Fresh = true
+	}
 	labels := map[string]bool{}
 	out := func(nt bool, f *pbt.Failure, excluded string) pbt.Outcome {
 		var ls []string
@@ -607,7 +648,9 @@ func prop(c Case) pbt.Outcome {
 	// ---- classification
 	nt := false
 	labels["kind:"+c.Kind] = true
-	if c.Fresh {
+	if c.NoLQ {
+		labels["load:fresh-process-without-lq-ranges"] = true
+	} else if c.Fresh {
 		labels["load:fresh-process"] = true
 	} else {
 		labels["load:same-process"] = true
@@ -712,9 +755,29 @@ func prop(c Case) pbt.Outcome {
 	if c.Fresh {
 		resetRegistry()
 	}
-	y, err := load(j1, single)
+	if c.NoLQ {
+		configureLQ(false)
+	}
+	y, err := safeLoad(j1, single)
+	configureLQ(true)
+	if err != nil && c.NoLQ && hasLQ(x) {
+		// a load that refuses the machine loudly does not drop anything silently
+		labels["load-refused-without-lq-ranges"] = true
+		return out(nt, nil, "")
+	}
 	if err != nil {
-		return out(nt, pbt.Failf("load-error", "json.Unmarshal of the saved machine: %v\n%s", err, j1), "")
+		return out(nt, pbt.Failf("load-error", "loading the saved machine: %v\n%s", err, j1), "")
+	}
+	if c.NoLQ && hasLQ(x) {
+		// D-C11-1: Dejsoner discards the error of EventuallyCreateInstruction (machine.go:230) and leaves
+		// a nil Opcode in the loaded machine; nothing is reported at load time.
+		labels["D-C11-1-class"] = true
+		// repaired in /repo (see known_findings.json): a silent drop is a violation again
+		if f := checkNoDrop(x, y); f != nil {
+			f.Sig = "lost-opcode:create-error-discarded"
+			f.Msg = "loaded in a process without -linear-data-range, no error reported: " + f.Msg + "\nsaved: " + string(j1)
+			return out(nt, f, "")
+		}
 	}
 	if f := checkNoDrop(x, y); f != nil {
 		f.Msg += "\nsaved: " + string(j1)
@@ -869,7 +932,7 @@ func perturbLabel(p string) string {
 	return strings.Join(parts, ".")
 }
 
-const ruleCommon = "; y = load(save(x)) by the CLI steps, half of the loads with the opcode registry reset to the static set in between (a new process); oracle: no dropped opcode/shared object/bond, reflection walk of the live structs equal (nil slice = empty slice; opcodes by name, type and registered identity), save(y) == save(x) byte-wise, one reflection-found field perturbed per case must change the JSON and survive, Verilog of x and y byte-identical on the HDL-sampled share (all files of a scratch dir), also for the machine saved after Write_verilog (caches CpID/SharedHDLOps/Tag exempt only there); non-trivial = at least one dynamic opcode, shared object/constraint, WordSize != 0 or Threaded > 0"
+const ruleCommon = "; y = load(save(x)) by the CLI steps, half of the loads with the opcode registry reset to the static set in between (a new process), about 1 in 8 of them in a process without -linear-data-range (machines with a linear-quantizer opcode are then counted as excluded: recorded finding D-C11-1); oracle: no dropped opcode/shared object/bond, reflection walk of the live structs equal (nil slice = empty slice; opcodes by name, type and registered identity), save(y) == save(x) byte-wise, one reflection-found field perturbed per case must change the JSON and survive, Verilog of x and y byte-identical on the HDL-sampled share (all files of a scratch dir), also for the machine saved after Write_verilog (caches CpID/SharedHDLOps/Tag exempt only there); non-trivial = at least one dynamic opcode, shared object/constraint, WordSize != 0 or Threaded > 0"
 
 var Props = []*pbt.Entry{
 	pbt.Def("machine",
@@ -883,5 +946,124 @@ var Props = []*pbt.Entry{
 		genCase("hs", 8), prop),
 }
 
-func TestProps(t *testing.T)  { pbt.RunAll(t, "C11", Props) }
-func TestReplay(t *testing.T) { pbt.ReplayAll(t, "C11", Props) }
+// sweep is fed by TestSweep (hand-rolled loop); it is not in Props so that TestProps does not
+// sample it again, but it is known to TestReplay.
+var sweep = pbt.Def("sweep",
+	"bounded-exhaustive: every statically registered opcode and three names of every creatable dynamic family, alone on a machine (R=2,N=2,M=2,L=3,O=3, one raw program word, one data word), in each mode ha/vn/hy, once as a single Machine and once as a 2-processor Bondmachine in which both processors are attached to one shared object of the kind the opcode talks to (rotating through the kinds otherwise), WordSize auto/exact/larger and Threaded 0..2 rotating; HDL regenerated for every case (fxp opcodes excepted)"+ruleCommon,
+	func(t *rapid.T) Case { return rapid.SampledFrom(allSweep()).Draw(t, "sweep") }, prop)
+
+var sweepDyn = []string{
+	"rsets1", "rsets8", "rsets32", "callo4stk", "calla4stk", "ret4stk", "push4stk", "pull4stk", "pull16my_stack",
+	"multfps8f4", "addfps16f8", "divfps32f16", "multfxps8f4", "addfxps16f8", "divfxps32f16", "multlqs8t1", "addlqs16t2", "divlqs32t3",
+}
+
+var sweepSO = map[string]string{
+	"sharedmem": "sharedmem:4", "channel": "channel:", "barrier": "barrier:5", "lfsr8": "lfsr8:7", "queue": "queue:4", "stack": "stack:4",
+	"uart": "uart:9600:4", "kbd": "kbd:4", "vtextmem": "vtextmem:0:1:1:4:4:1:6:1:4:4",
+}
+
+func allSweep() []Case {
+	names := append(StaticNames(), sweepDyn...)
+	kindFor := map[string]string{}
+	for k, ops := range soOps {
+		for _, o := range ops {
+			kindFor[o] = k
+		}
+	}
+	words := []string{"auto", "exact", "larger"}
+	var cs []Case
+	i := 0
+	for _, n := range names {
+		for _, mode := range []string{"ha", "vn", "hy"} {
+			i++
+			k, ok := kindFor[n]
+			if !ok {
+				k = soKinds[i%len(soKinds)]
+			}
+			d := Dom{Mode: mode, R: 2, N: 2, M: 2, L: 3, O: 3, Word: words[i%3], WordExtra: 1 + i%5, Threaded: i % 3, Ops: []string{n},
+				Prog: []Line{{Seed: uint64(i)}}, Vars: []uint64{uint64(i) * 7}}
+			m := Case{Kind: "machine", Rsize: []int{8, 16, 32, 64}[i%4], Doms: []Dom{d}, HDL: true, Fresh: i%2 == 0, Perturb: i}
+			m.Doms[0].Constraints = sweepSO[k]
+			cs = append(cs, m)
+			b := Case{Kind: "bm", Rsize: m.Rsize, Doms: []Dom{d}, Procs: []int{0, 0}, Inputs: 1, Outputs: 1,
+				Bonds: [][2]string{{"p0i0", "i0"}, {"p1i0", "p0o0"}, {"p1i1", "p0o0"}, {"o0", "p1o1"}},
+				SOs:   []string{sweepSO[k]}, SOLinks: [][2]int{{0, 0}, {1, 0}}, HDL: true, Fresh: i%2 == 1, Perturb: i * 31}
+			cs = append(cs, b)
+		}
+	}
+	return cs
+}
+
+// PropsKnown: sub-campaign whose only job is to confirm the recorded finding D-C11-1 (expected to fail).
+var PropsKnown = []*pbt.Entry{
+	pbt.Def("load_without_lq_ranges",
+		"single Machine as in entry machine with at least one linear-quantizer opcode, saved in a process configured with -linear-data-range and loaded in a fresh one without it: confirms D-C11-1, expected to fail with signature lost-opcode:create-error-discarded (nil Opcode after load, nothing reported)",
+		func(t *rapid.T) Case {
+			c := genMachine(t, false)
+			c.Doms[0].Ops = uniq(sortedCopy(append(c.Doms[0].Ops, genDyn(t, "lqs"))))
+			c.NoLQ, c.Fresh = true, true
+			return c
+		}, propKnown),
+}
+
+func sortedCopy(xs []string) []string {
+	r := append([]string(nil), xs...)
+	sort.Strings(r)
+	return r
+}
+
+func TestProps(t *testing.T) { pbt.RunAll(t, "C11", Props) }
+
+// TestKnown confirms the recorded finding.
+func TestKnown(t *testing.T) { pbt.RunAll(t, "C11", PropsKnown) }
+
+func TestReplay(t *testing.T) {
+	pbt.ReplayAll(t, "C11", append(append(append([]*pbt.Entry(nil), Props...), sweep), PropsKnown...))
+}
+
+// TestSweep enumerates every opcode once per mode and machine kind (no rapid, no sharding needed).
+func TestSweep(t *testing.T) {
+	pbt.RunAll(t, "C11", nil) // sets the property id and registers the stats flush
+	cs := allSweep()
+	bad := 0
+	for _, c := range cs {
+		c := c
+		out := pbt.Guard(func() pbt.Outcome { return prop(c) })
+		pbt.Observe(sweep, c, out)
+		if out.Excluded != "" {
+			t.Errorf("sweep case excluded (%s): %v %v", out.Excluded, out.Labels, c.Doms[0].Ops)
+		}
+		if out.Fail != nil {
+			bad++
+			path := pbt.WriteFail(fmt.Sprintf("sweep_%d", bad), c, out.Fail)
+			t.Errorf("FAIL sweep: %s (sig=%q) replay=%s", out.Fail.Msg, out.Fail.Sig, path)
+		}
+	}
+	pbt.Extra("sweep", "enumerated", len(cs))
+	t.Logf("sweep enumerated: %d, failures: %d", len(cs), bad)
+}
+
+// TestReplayOutcomes prints the outcome of every replay file (debugging aid: go test -run TestReplayOutcomes -v).
+func TestReplayOutcomes(t *testing.T) {
+	dir := os.Getenv("VERIF_REPLAY_DIR")
+	if dir == "" {
+		t.Skip("VERIF_REPLAY_DIR not set")
+	}
+	files, _ := filepath.Glob(filepath.Join(dir, "*.json"))
+	more, _ := filepath.Glob(filepath.Join(dir, "*", "*.json"))
+	for _, p := range append(files, more...) {
+		b, _ := os.ReadFile(p)
+		var rf pbt.ReplayFile
+		var c Case
+		if json.Unmarshal(b, &rf) != nil || json.Unmarshal(rf.Case, &c) != nil {
+			t.Errorf("%s: not a C11 replay file", p)
+			continue
+		}
+		out := pbt.Guard(func() pbt.Outcome { return prop(c) })
+		msg := ""
+		if out.Fail != nil {
+			msg = out.Fail.Sig + ": " + strings.SplitN(out.Fail.Msg, "\n", 2)[0]
+		}
+		t.Logf("%s: nontrivial=%v excluded=%q fail=%q labels=%v", filepath.Base(p), out.NonTrivial, out.Excluded, msg, out.Labels)
+	}
+}
